@@ -1,23 +1,173 @@
-(* C06 — every prefix of a plan is a consistent schema.  Pinned statements only. *)
-From VV.M1 Require Import Oracles WitnessP.
+(* C06 — every prefix of a plan is a consistent schema: actions are ordered by dependency.
+   The property is FALSE in general (DESIGN §7 D1, D2); what is pinned here:
+     * the parts that are true, for all inputs: the fuelled Kahn sort never runs out of fuel, is
+       duplicate free and sound (and complete on acyclic maps); created tables are in FK order;
+       CreateTable precedes every FK AddConstraint that references it; the CreateTable actions of a
+       whole diff are in FK order;
+     * concrete refutations of the parts that are false (with the classifier of the known finding);
+     * the full-strength statement as a plain definition, so that the target stays visible.
+   Pinned statements only: each theorem is closed by [exact] of a lemma proved in Proofs/. *)
+From VV.M1 Require Import Diff Validate Oracles KahnP.
+From Coq Require Import Permutation.
 
+(* ---------- the full-strength target (a definition, NOT a claim: it is refuted below) ---------- *)
 Definition C06_full_statement : Prop :=
   forall B T, loader_accepts B = true -> loader_accepts T = true -> plan_stepwise_ok B T = true.
 
-Theorem C06_delete_before_remove_fk_refuted : exists B T,
-  loader_accepts B = true /\ loader_accepts T = true /\
-  plan_stepwise_ok B T = false /\ known_drop_before_unreference B T = true.
-Proof. exists d2_base, d2_target. repeat split; vm_compute; reflexivity. Qed.
-Print Assumptions C06_delete_before_remove_fk_refuted.
-Check C06_delete_before_remove_fk_refuted : exists B T,
-  loader_accepts B = true /\ loader_accepts T = true /\
-  plan_stepwise_ok B T = false /\ known_drop_before_unreference B T = true.
+(* ---------- Kahn's algorithm as coded ---------- *)
+Theorem C06_kahn_fuel_enough : forall deps : deps_map, NoDup (map fst deps) -> kahn deps <> None.
+Proof. exact kahn_fuel_enough. Qed.
+Print Assumptions C06_kahn_fuel_enough.
+Check C06_kahn_fuel_enough : forall deps : deps_map, NoDup (map fst deps) -> kahn deps <> None.
 
-Theorem C06_shrunk_constraint_refuted : exists B T,
-  loader_accepts B = true /\ loader_accepts T = true /\
-  plan_stepwise_ok B T = false /\ known_shrunk_constraint B T = true.
-Proof. exists d1_base, d1_target. repeat split; vm_compute; reflexivity. Qed.
+Theorem C06_kahn_nodup : forall (deps : deps_map) order, NoDup (map fst deps) -> kahn deps = Some order ->
+  NoDup order /\ incl order (map fst deps).
+Proof. exact kahn_nodup. Qed.
+Print Assumptions C06_kahn_nodup.
+Check C06_kahn_nodup : forall (deps : deps_map) order, NoDup (map fst deps) -> kahn deps = Some order ->
+  NoDup order /\ incl order (map fst deps).
+
+(* a name is output after everything it depends on *)
+Theorem C06_kahn_sound : forall (deps : deps_map) order, NoDup (map fst deps) -> kahn deps = Some order ->
+  forall n ds d, In (n, ds) deps -> In n order -> In d ds ->
+  exists l1 l2 l3, order = l1 ++ d :: l2 ++ n :: l3.
+Proof. exact kahn_sound. Qed.
+Print Assumptions C06_kahn_sound.
+Check C06_kahn_sound : forall (deps : deps_map) order, NoDup (map fst deps) -> kahn deps = Some order ->
+  forall n ds d, In (n, ds) deps -> In n order -> In d ds ->
+  exists l1 l2 l3, order = l1 ++ d :: l2 ++ n :: l3.
+
+(* acyclic (ranked) maps with duplicate-free, closed dependency lists are output entirely *)
+Theorem C06_kahn_complete : forall (deps : deps_map) (rank : string -> nat),
+  NoDup (map fst deps) ->
+  (forall n ds, In (n, ds) deps -> NoDup ds /\ incl ds (map fst deps)) ->
+  (forall n ds d, In (n, ds) deps -> In d ds -> rank d < rank n) ->
+  exists order, kahn deps = Some order /\ Permutation order (map fst deps).
+Proof. exact kahn_complete. Qed.
+Print Assumptions C06_kahn_complete.
+Check C06_kahn_complete : forall (deps : deps_map) (rank : string -> nat),
+  NoDup (map fst deps) ->
+  (forall n ds, In (n, ds) deps -> NoDup ds /\ incl ds (map fst deps)) ->
+  (forall n ds d, In (n, ds) deps -> In d ds -> rank d < rank n) ->
+  exists order, kahn deps = Some order /\ Permutation order (map fst deps).
+
+(* ---------- topological_sort_tables ---------- *)
+Theorem C06_topo_sort_sound : forall tables res,
+  NoDup (map t_name tables) -> topo_sort tables = TopoOk res ->
+  Permutation res tables /\
+  forall t rt, In t res -> In rt (fk_targets t) -> rt <> t_name t -> In rt (map t_name tables) ->
+    exists r l1 l2 l3, t_name r = rt /\ res = l1 ++ r :: l2 ++ t :: l3.
+Proof. exact topo_sort_sound. Qed.
+Print Assumptions C06_topo_sort_sound.
+Check C06_topo_sort_sound : forall tables res,
+  NoDup (map t_name tables) -> topo_sort tables = TopoOk res ->
+  Permutation res tables /\
+  forall t rt, In t res -> In rt (fk_targets t) -> rt <> t_name t -> In rt (map t_name tables) ->
+    exists r l1 l2 l3, t_name r = rt /\ res = l1 ++ r :: l2 ++ t :: l3.
+
+Theorem C06_topo_sort_complete : forall tables (rank : string -> nat),
+  NoDup (map t_name tables) ->
+  (forall t rt, In t tables -> In rt (fk_targets t) -> rt <> t_name t -> In rt (map t_name tables) ->
+     rank rt < rank (t_name t)) ->
+  exists res, topo_sort tables = TopoOk res.
+Proof. exact topo_sort_complete. Qed.
+Print Assumptions C06_topo_sort_complete.
+Check C06_topo_sort_complete : forall tables (rank : string -> nat),
+  NoDup (map t_name tables) ->
+  (forall t rt, In t tables -> In rt (fk_targets t) -> rt <> t_name t -> In rt (map t_name tables) ->
+     rank rt < rank (t_name t)) ->
+  exists res, topo_sort tables = TopoOk res.
+
+Theorem C06_topo_sort_never_out_of_fuel : forall tables, topo_sort tables <> TopoOutOfFuel.
+Proof. exact topo_sort_never_out_of_fuel. Qed.
+Print Assumptions C06_topo_sort_never_out_of_fuel.
+Check C06_topo_sort_never_out_of_fuel : forall tables, topo_sort tables <> TopoOutOfFuel.
+
+(* ---------- sort_create_before_add_constraint ---------- *)
+Theorem C06_create_order_sound : forall acts,
+  Permutation (sort_create_before_add_constraint acts) acts /\
+  filter (fun a => match a with CreateTable _ _ _ => true | _ => false end) (sort_create_before_add_constraint acts)
+    = filter (fun a => match a with CreateTable _ _ _ => true | _ => false end) acts /\
+  forall i j t cols ks tb n c rc od ou,
+    nth_error (sort_create_before_add_constraint acts) i = Some (CreateTable t cols ks) ->
+    nth_error (sort_create_before_add_constraint acts) j = Some (AddConstraint tb (CForeignKey n c t rc od ou)) ->
+    i < j.
+Proof. exact create_order_sound. Qed.
+Print Assumptions C06_create_order_sound.
+Check C06_create_order_sound : forall acts,
+  Permutation (sort_create_before_add_constraint acts) acts /\
+  filter (fun a => match a with CreateTable _ _ _ => true | _ => false end) (sort_create_before_add_constraint acts)
+    = filter (fun a => match a with CreateTable _ _ _ => true | _ => false end) acts /\
+  forall i j t cols ks tb n c rc od ou,
+    nth_error (sort_create_before_add_constraint acts) i = Some (CreateTable t cols ks) ->
+    nth_error (sort_create_before_add_constraint acts) j = Some (AddConstraint tb (CForeignKey n c t rc od ou)) ->
+    i < j.
+
+(* ---------- the CreateTable actions of a whole diff ---------- *)
+Theorem C06_diff_creates_in_fk_order : forall A B Bn acts,
+  NoDup (map t_name B) -> normalize_all B = Ok Bn -> diff_actions A B = Ok acts ->
+  forall t rt, In t Bn -> In rt (fk_targets t) -> rt <> t_name t ->
+    In (t_name t) (created_tables acts) -> In rt (created_tables acts) ->
+    exists l1 l2 l3, created_tables acts = l1 ++ rt :: l2 ++ t_name t :: l3.
+Proof. exact diff_creates_in_fk_order. Qed.
+Print Assumptions C06_diff_creates_in_fk_order.
+Check C06_diff_creates_in_fk_order : forall A B Bn acts,
+  NoDup (map t_name B) -> normalize_all B = Ok Bn -> diff_actions A B = Ok acts ->
+  forall t rt, In t Bn -> In rt (fk_targets t) -> rt <> t_name t ->
+    In (t_name t) (created_tables acts) -> In rt (created_tables acts) ->
+    exists l1 l2 l3, created_tables acts = l1 ++ rt :: l2 ++ t_name t :: l3.
+
+(* ---------- refutations (R): the planner really emits these plans ---------- *)
+(* D2: DeleteTable is emitted before the RemoveConstraint of a surviving table's FK to it *)
+Theorem C06_delete_before_remove_fk_refuted :
+  exists B T, loader_accepts B = true /\ loader_accepts T = true /\
+              plan_stepwise_ok B T = false /\ known_drop_before_unreference B T = true.
+Proof. exact KahnP.C06_delete_before_remove_fk_refuted. Qed.
+Print Assumptions C06_delete_before_remove_fk_refuted.
+Check C06_delete_before_remove_fk_refuted :
+  exists B T, loader_accepts B = true /\ loader_accepts T = true /\
+              plan_stepwise_ok B T = false /\ known_drop_before_unreference B T = true.
+
+(* D1: DeleteColumn shrinks a multi-column constraint, the later RemoveConstraint names the original *)
+Theorem C06_shrunk_constraint_refuted :
+  exists B T, loader_accepts B = true /\ loader_accepts T = true /\
+              plan_stepwise_ok B T = false /\ known_shrunk_constraint B T = true.
+Proof. exact KahnP.C06_shrunk_constraint_refuted. Qed.
 Print Assumptions C06_shrunk_constraint_refuted.
-Check C06_shrunk_constraint_refuted : exists B T,
-  loader_accepts B = true /\ loader_accepts T = true /\
-  plan_stepwise_ok B T = false /\ known_shrunk_constraint B T = true.
+Check C06_shrunk_constraint_refuted :
+  exists B T, loader_accepts B = true /\ loader_accepts T = true /\
+              plan_stepwise_ok B T = false /\ known_shrunk_constraint B T = true.
+
+(* an FK cycle among new tables: accepted by the loader, refused by the planner; outside both classifiers *)
+Theorem C06_fk_cycle_refuted :
+  exists B T, loader_accepts B = true /\ loader_accepts T = true /\
+              diff_actions B T = Err DiffCycle /\ plan_stepwise_ok B T = false /\
+              known_drop_before_unreference B T = false /\ known_shrunk_constraint B T = false.
+Proof. exact KahnP.C06_fk_cycle_refuted. Qed.
+Print Assumptions C06_fk_cycle_refuted.
+Check C06_fk_cycle_refuted :
+  exists B T, loader_accepts B = true /\ loader_accepts T = true /\
+              diff_actions B T = Err DiffCycle /\ plan_stepwise_ok B T = false /\
+              known_drop_before_unreference B T = false /\ known_shrunk_constraint B T = false.
+
+Theorem C06_full_statement_refuted : ~ C06_full_statement.
+Proof. exact KahnP.C06_full_statement_refuted. Qed.
+Print Assumptions C06_full_statement_refuted.
+Check C06_full_statement_refuted : ~ (forall B T, loader_accepts B = true -> loader_accepts T = true -> plan_stepwise_ok B T = true).
+
+(* ---------- non-vacuity ---------- *)
+Example C06_kahn_nonvacuous :
+  NoDup (map fst [("a", ["b"; "c"]); ("b", ["c"]); ("c", @nil string)]) /\
+  kahn [("a", ["b"; "c"]); ("b", ["c"]); ("c", [])] = Some ["c"; "b"; "a"].
+Proof. split; [repeat constructor; cbn; intuition discriminate | vm_compute; reflexivity]. Qed.
+
+Example C06_topo_nonvacuous :
+  exists res, topo_sort [mkTable "post" None [] [CForeignKey None ["user_id"] "user" ["id"] None None];
+                         mkTable "user" None [] []] = TopoOk res /\ map t_name res = ["user"; "post"].
+Proof. eexists. split; vm_compute; reflexivity. Qed.
+
+Example C06_diff_creates_nonvacuous :
+  exists acts, diff_actions [] [mkTable "post" None [w_pkcol "id"; w_fkcol "user_id" "user.id"] [];
+                                mkTable "user" None [w_pkcol "id"] []] = Ok acts /\
+               created_tables acts = ["user"; "post"].
+Proof. eexists. split; vm_compute; reflexivity. Qed.
